@@ -394,7 +394,14 @@ func runDB(args []string, in *bufio.Scanner, out *bufio.Writer) {
 					// the 64-bit hash under which the linear-probe hash table files this key (murmur3 x64_128 of the
 					// key bytes, first eight bytes little endian): an input of the hash-table model
 					h := murmur3.New128()
-					h.Write(mk(a[2]).GetValueInBytes(sc, col))
+					kb := mk(a[2]).GetValueInBytes(sc, col)
+					if colType == types.Float {
+						// the index files -0.0 under the bytes of +0.0 (LinearProbeHashTableIndex.keyBytes)
+						if v := mk(a[2]).GetValue(sc, col); !v.IsNull() && v.ToFloat() == 0 {
+							kb = types.NewFloat(0).Serialize()
+						}
+					}
+					h.Write(kb)
 					return fmt.Sprintf("ok:%016x", binary.LittleEndian.Uint64(h.Sum(nil)))
 				}
 				switch f[0] {
